@@ -23,7 +23,7 @@
   Note `MIN % -1` does not trap (`srem` yields 0), so it is not in the set.
   Built-ins (T2), the check script and known findings are owned elsewhere.
 -/
-import RotoV.Lemmas.Scalar
+import RotoV.Lemmas.ScalarTrap
 
 namespace RotoV.C10
 open RotoV RotoV.Gen RotoV.Gen.OpTables
@@ -73,23 +73,28 @@ theorem noTrapKind_runs (dbg : Bool) {k : IntKind} {sz : IntSize} (i : Instructi
   cases i <;> simp only [NoTrapKind] at h
   case IntCmp t cmp l r =>
     obtain ⟨x, hx⟩ := hop l; obtain ⟨y, hy⟩ := hop r
-    exact ⟨_, by simp only [runInstr]; rw [hx, hy, cvInt, cvInt, cg_IntCmp_int dbg _ sz.cty hf rfl]⟩
+    obtain ⟨c, hc⟩ := cg_IntCmp_completes dbg cmp sz.cty hf rfl x.bv y.bv
+    exact ⟨_, by simp only [runInstr]; rw [hx, hy]; exact hc⟩
   case Add t l r =>
     obtain ⟨x, hx⟩ := hop l; obtain ⟨y, hy⟩ := hop r
-    exact ⟨_, by simp only [runInstr]; rw [hx, hy, cvInt, cvInt, cg_Add_int dbg sz.cty hf rfl]⟩
+    obtain ⟨c, hc⟩ := cg_Add_completes dbg sz.cty hf rfl x.bv y.bv
+    exact ⟨_, by simp only [runInstr]; rw [hx, hy]; exact hc⟩
   case Sub t l r =>
     obtain ⟨x, hx⟩ := hop l; obtain ⟨y, hy⟩ := hop r
-    exact ⟨_, by simp only [runInstr]; rw [hx, hy, cvInt, cvInt, cg_Sub_int dbg sz.cty hf rfl]⟩
+    obtain ⟨c, hc⟩ := cg_Sub_completes dbg sz.cty hf rfl x.bv y.bv
+    exact ⟨_, by simp only [runInstr]; rw [hx, hy]; exact hc⟩
   case Mul t l r =>
     obtain ⟨x, hx⟩ := hop l; obtain ⟨y, hy⟩ := hop r
-    exact ⟨_, by simp only [runInstr]; rw [hx, hy, cvInt, cvInt, cg_Mul_int dbg sz.cty hf rfl]⟩
+    obtain ⟨c, hc⟩ := cg_Mul_completes dbg sz.cty hf rfl x.bv y.bv
+    exact ⟨_, by simp only [runInstr]; rw [hx, hy]; exact hc⟩
   case CallEq n l r =>
     obtain ⟨x, hx⟩ := hop l; obtain ⟨y, hy⟩ := hop r
     have hxf : (cvInt x).ty.isFloat = false := hf
+    obtain ⟨c, hc⟩ := cg_IntCmp_completes dbg (if n then .Ne else .Eq) sz.cty hf rfl x.bv y.bv
     exact ⟨_, by
       simp only [runInstr]
       rw [hx, hy]; simp only [hxf, Bool.false_eq_true, if_false]
-      rw [cvInt, cvInt, cg_IntCmp_int dbg _ sz.cty hf rfl]⟩
+      exact hc⟩
 
 /-- **(a)** For every integer type, every operator and all operands: `lower_binop` emits an
     instruction, and its compiled sequence traps iff the operator is `/` or `%` and the divisor is
@@ -156,8 +161,11 @@ theorem arith_no_trap_partial (dbg : Bool) :
     · exact h1 h
     · exact h2 h
   · intro k sz x
-    exact ⟨_, by rw [cvInt, cg_Negate_int dbg sz.cty sz.cty_notFloat rfl]⟩
-  · intro b; exact ⟨_, cg_Not_bool dbg b⟩
+    obtain ⟨c, hc⟩ := cg_Negate_completes dbg sz.cty sz.cty_notFloat rfl x.bv
+    exact ⟨_, hc⟩
+  · intro b
+    obtain ⟨r, hr⟩ := cg_Not_completes dbg b
+    exact ⟨_, hr⟩
 
 /-- non-vacuity of the guard: `7u16 / 2u16` is not a trap point. -/
 example : ¬ TrapPoint (k := .Unsigned) (sz := .I16) .Div (.ofInt _ _ 7) (.ofInt _ _ 2)
